@@ -41,6 +41,9 @@ func (br *beatReader) Read() ([]any, bool, error) {
 		if err != nil {
 			return nil, false, err
 		}
+		// the cache is keyed by block id and shared by all subscribers,
+		// while the obsolete flag belongs to this delivery
+		msg.Obsolete = block.Obsolete
 		msgs = append(msgs, msg)
 	}
 	return msgs, len(blocks) > 0, nil
